@@ -1,0 +1,121 @@
+//! Verification hooks (cargo feature `verif`, off by default).
+//!
+//! Add-only, read-only access for the external correspondence harness in /verif: thin `pub`
+//! wrappers over crate-private encoders and parsers. Nothing here is compiled unless the
+//! feature is enabled, and nothing here changes behaviour of existing code.
+
+use super::*;
+
+pub use crate::index::entry::InscriptionEntry;
+
+pub type TermsEntryValue = (
+  Option<u128>,
+  (Option<u64>, Option<u64>),
+  Option<u128>,
+  (Option<u64>, Option<u64>),
+);
+
+pub type RuneEntryValue = (
+  u64,
+  u128,
+  u8,
+  (u128, u128),
+  u128,
+  u64,
+  u128,
+  (u128, u32),
+  Option<char>,
+  Option<TermsEntryValue>,
+  u64,
+  bool,
+);
+
+pub type InscriptionEntryValue = (
+  u16,
+  u64,
+  u32,
+  bool,
+  (u128, u128, u32),
+  i32,
+  Vec<u32>,
+  Option<u64>,
+  u32,
+  u32,
+);
+
+/// `Entry::store` / `Entry::load` of the crate-private `Entry` trait, per type.
+pub mod entry {
+  use {super::*, crate::index::entry::Entry};
+
+  pub fn sat_range_store(range: (u64, u64)) -> [u8; 11] {
+    range.store()
+  }
+
+  pub fn sat_range_load(value: [u8; 11]) -> (u64, u64) {
+    <(u64, u64)>::load(value)
+  }
+
+  pub fn header_store(header: bitcoin::block::Header) -> [u8; 80] {
+    header.store()
+  }
+
+  pub fn header_load(value: [u8; 80]) -> bitcoin::block::Header {
+    bitcoin::block::Header::load(value)
+  }
+
+  pub fn outpoint_store(outpoint: OutPoint) -> [u8; 36] {
+    outpoint.store()
+  }
+
+  pub fn outpoint_load(value: [u8; 36]) -> OutPoint {
+    OutPoint::load(value)
+  }
+
+  pub fn satpoint_store(satpoint: SatPoint) -> [u8; 44] {
+    satpoint.store()
+  }
+
+  pub fn satpoint_load(value: [u8; 44]) -> SatPoint {
+    SatPoint::load(value)
+  }
+
+  pub fn rune_entry_store(entry: RuneEntry) -> RuneEntryValue {
+    entry.store()
+  }
+
+  pub fn rune_entry_load(value: RuneEntryValue) -> RuneEntry {
+    RuneEntry::load(value)
+  }
+
+  pub fn rune_id_store(id: RuneId) -> (u64, u32) {
+    id.store()
+  }
+
+  pub fn rune_id_load(value: (u64, u32)) -> RuneId {
+    RuneId::load(value)
+  }
+
+  pub fn inscription_entry_store(entry: InscriptionEntry) -> InscriptionEntryValue {
+    entry.store()
+  }
+
+  pub fn inscription_entry_load(value: InscriptionEntryValue) -> InscriptionEntry {
+    InscriptionEntry::load(value)
+  }
+
+  pub fn inscription_id_store(id: InscriptionId) -> (u128, u128, u32) {
+    id.store()
+  }
+
+  pub fn inscription_id_load(value: (u128, u128, u32)) -> InscriptionId {
+    InscriptionId::load(value)
+  }
+
+  pub fn txid_store(txid: Txid) -> [u8; 32] {
+    txid.store()
+  }
+
+  pub fn txid_load(value: [u8; 32]) -> Txid {
+    Txid::load(value)
+  }
+}
